@@ -101,8 +101,14 @@ ScriptStep(ev) ==
 (* --- honest negotiations: monitor only --------------------------------------------------------------- *)
 \* RFC 5245 4.1.2.1: priority = 2^24 * type preference + 2^8 * local preference + (256 - component ID),
 \* type preference of a host candidate 126, local preference 0..65535 (65535 for the only address)
-HostPrio(c) == LET r == c.prio - 2113929216 - (256 - c.comp) IN r >= 0 /\ r % 256 = 0 /\ r \div 256 <= 65535
-CandOk(c) == c.type = "host" /\ c.proto = "udp" /\ c.comp >= 1 /\ c.comp <= 256 /\ HostPrio(c)
+\* (recommended type preferences: host 126, peer-reflexive 110, server-reflexive 100, relayed 0)
+TypePrefs == [host |-> 126, prflx |-> 110, srflx |-> 100, relay |-> 0]
+PrioOfType(tp, prio, comp) == LET r == prio - tp * 16777216 - (256 - comp) IN r >= 0 /\ r % 256 = 0 /\ r \div 256 <= 65535
+CandOk(c) == c.type \in DOMAIN TypePrefs /\ c.proto = "udp" /\ c.comp >= 1 /\ c.comp <= 256
+             /\ PrioOfType(TypePrefs[c.type], c.prio, c.comp)
+\* RFC 5245 7.1.2.1: the PRIORITY attribute of a connectivity check is the priority a peer-reflexive candidate
+\* learnt from this check would get (type preference 110, the component of the check)
+CheckPrioOk(r) == r.has /\ PrioOfType(110, r.prio, r.comp)
 
 CandsStep(ev) ==
     /\ AddViol({V("Priority", ToJson(ev.c[i])) : i \in {j \in 1..Len(ev.c) : ~CandOk(ev.c[j])}}
@@ -116,7 +122,9 @@ NegoStep(ev) ==
         honestOnly == ev.attackerRx = 0 /\ (ev.nselA > 0 => ev.selA) /\ (ev.nselB > 0 => ev.selB)
     IN
     /\ AddViol((IF connects THEN {} ELSE {V("Connects", ToJson([connA |-> ev.connA, connB |-> ev.connB, iscA |-> ev.iscA, iscB |-> ev.iscB, discA |-> ev.discA, discB |-> ev.discB]))})
-               \cup (IF honestOnly THEN {} ELSE {V("AuthOnly-nego", ToJson([attackerRx |-> ev.attackerRx, selA |-> ev.selA, selB |-> ev.selB]))}))
+               \cup (IF honestOnly THEN {} ELSE {V("AuthOnly-nego", ToJson([attackerRx |-> ev.attackerRx, selA |-> ev.selA, selB |-> ev.selB]))})
+               \* clause "Priorities": every connectivity check the agents sent (seen at the relay)
+               \cup {V("Priority", ToJson([check_PRIORITY |-> ev.reqPrio[i]])) : i \in {j \in 1..Len(ev.reqPrio) : ~CheckPrioOk(ev.reqPrio[j])}})
     /\ Diverge(ev.connA # 1 \/ ev.connB # 1, [what |-> "connected signals", model |-> <<1, 1>>, impl |-> <<ev.connA, ev.connB>>])
     /\ UNCHANGED <<vars, cid, kind, ncases, stats>>
 
